@@ -9,6 +9,10 @@ import time
 
 from vlib import core
 from checks import alloc_common as A
+try:
+    from checks import galloc_part
+except ImportError:      # the add-on part is optional
+    galloc_part = None
 
 PID = "C03"
 
@@ -95,7 +99,7 @@ def run(tier):
     chk = core.Check(PID, tier, "model_checking")
     quick = tier == "quick"
     k = A.code_constants()
-    pool = concurrent.futures.ThreadPoolExecutor(max_workers=3)
+    pool = concurrent.futures.ThreadPoolExecutor(max_workers=4)
 
     # ---- the design model, in the background: all invariants on the bounded state space,
     # every action fires, reachability probes
@@ -128,6 +132,10 @@ def run(tier):
 
     bin_dbg = A.build(release=False)
     bin_rel = A.build(release=True)
+    # add-on part (builder-threads): the REAL private #[global_allocator] GlobalDlMalloc in a no-libc
+    # probe (features executable + threaded + global-allocator), 1/2/4 threads, judged with this
+    # property's invariants of AllocAbs; runs concurrently with the drivers below
+    fut_ga = pool.submit(galloc_part.run_part, chk, tier) if galloc_part else None
 
     # ---- TLC-generated histories
     depth = 4 if quick else 5
@@ -147,7 +155,7 @@ def run(tier):
     n_fixed = len(plans)
     # the same structures over other boundary alphabets, started from a non-empty, churned heap
     rng = A.rng_for(chk, "c03")
-    n_rot = 1000 if quick else 5000
+    n_rot = 700 if quick else 5000
     for i in range(n_rot):
         h = hists[rng.randrange(len(hists))]
         al, rs = random_alphabet(rng, k, nalloc, nresize, big_ok=(i % 4 == 0))
@@ -155,7 +163,7 @@ def run(tier):
                       "oseq": [rng.choice("bad") for _ in range(4)], "refuse_each": i % 3 == 0,
                       "warm": rng.randrange(1, 1 << 30) if i % 2 == 0 else 0, "classes": classes, "walk": i % 2 == 1, "src": "tlc-rotated"})
     # seeded random long histories with random placement and random refusals
-    n_rand, n_ops = (100, 300) if quick else (700, 600)
+    n_rand, n_ops = (70, 300) if quick else (700, 600)
     rand_plans = []
     for i in range(n_rand):
         big = i % 8 == 0
@@ -192,7 +200,7 @@ def run(tier):
     # the real kernel (own driver process without arena reservation); Accessible is not judged
     # there, a fault of the recorder on a block is a crash event
     real_plans = [{"kind": "hist", "slots": nslots, "ops": A.bind_history(h, allocs, resizes), "real": True, "src": "real-os"}
-                  for h in fixed[:(len(fixed) if quick else 4000)]]
+                  for h in (fixed[::2] if quick else fixed[:4000])]
     for i in range(40 if quick else 300):
         real_plans.append({"kind": "rand", "seed": rng.randrange(1, 1 << 40), "n": 300, "slots": rng.choice([8, 24]),
                            "max": rng.choice([2048, 300000, 3 << 20]), "max_live": 16 << 20, "classes": classes,
@@ -278,6 +286,8 @@ def run(tier):
     for plan, r in first_runs:
         chk.sample({"plan": plan["ops"], "os": plan["os"], "events": [A.slim(e) for e in r[1:8]]})
 
+    if fut_ga is not None:
+        fut_ga.result()
     res, cov, probes = fut_design.result()
     pool.shutdown()
     silent = [a for a in A.ACTIONS if cov.get(a, 0) == 0]
@@ -302,7 +312,7 @@ def run(tier):
         "64-bit target only; request sizes: size-class boundaries of dlmalloc.rs (1 B .. 32 MiB+1) x alignments 1..8192, not every size",
         "content: owner pattern of every live block re-read around every call (all bytes while <= 512 KiB are live, ends+probes of big blocks beyond; every byte of a block when it is reallocated or freed and at the end of a run)",
         "null without an OS refusal is accepted only for requests >= 256 MiB",
-        "single-threaded; the Mutex-wrapped global allocator is C04's/C01's subject",
+        "the std-linked harness part is single-threaded and drives Dlmalloc directly; the private GlobalDlMalloc wrapper (Mutex + GlobalAlloc methods) is exercised by the add-on part global_allocator_part (no-libc probe, 1/2/4 threads) when it is present",
     ]
     chk.extra.update({
         "design_model": {"states": res.distinct, "depth": res.depth, "action_coverage": {a: cov.get(a, 0) for a in A.ACTIONS},
